@@ -59,7 +59,8 @@ var c19Helpers = []string{"text", "html", "json", "jsonbytes", "jsonp", "xml", "
 var c19Renderers = []string{"text", "plain", "textbytes", "html", "htmlbytes", "blob", "json", "jsonindented", "jsonp", "xml", "xmlpretty"}
 var c19Statuses = []int{200, 201, 202, 400, 404, 500, 0, 302, 307}
 var c19Accepts = []string{"", "application/json", "text/xml, application/json", "text/plain, application/json", "application/xml", "text/xml", "text/html, text/plain",
-	"image/png", "image/png, text/plain;q=0.5", "*/*", "application/json;q=0.9, text/plain", " text/plain , application/xml", "text/html", ",,application/xml", "application/xml, text/html"}
+	"image/png", "image/png, text/plain;q=0.5", "*/*", "application/json;q=0.9, text/plain", " text/plain , application/xml", "text/html", ",,application/xml", "application/xml, text/html",
+	"text/csv;q=0.9, application/json", "*/*;q=0.1, text/xml", "image/png;q=1;level=2 , text/plain;q=0.5", "text/csv; q=0.9,text/html;q=0.8, application/json"}
 
 func c19Gen(r *Rng, tier string, i int) Sx {
 	preset := A("none")
